@@ -137,7 +137,9 @@ def check_accept(bounds, prec, space):
             ri = int(r)
             # the bound itself must be a grid element: the one at index range/precision
             if len(g) <= ri or abs(g[ri] - up) > 4 * (ri + 1) * np.spacing(mag):
-                absorbed = float(up + 1e-7) == up and len(g) == ri
+                # the library's own length formula, evaluated in floating point as numpy.arange does: the 1e-7 end-point tolerance
+                # is lost to rounding (absorbed by the addition, or by the division) and the end point falls outside
+                absorbed = len(g) == ri and math.ceil((float(up + 1e-7) - lo) / p) == ri
                 bad.append(
                     (f"axis {j}: range is exactly {ri} steps but the upper bound {up!r} is not a grid element "
                      f"(grid has {len(g)} points, last {g[-1] if len(g) else None!r})",
